@@ -107,6 +107,36 @@ def _norm2_apps(formulas):
     return apps
 
 
+def _apps_of(formulas, decl):
+    seen = set()
+    stack = list(formulas)
+    apps = []
+    while stack:
+        t = stack.pop()
+        if t.get_id() in seen:
+            continue
+        seen.add(t.get_id())
+        if z3.is_quantifier(t):
+            continue
+        if z3.is_app(t):
+            if t.decl().eq(decl):
+                apps.append(t)
+            stack.extend(t.children())
+    return apps
+
+
+def exp_axioms(formulas=(), exact=False, goal=()):
+    """exp is positive: quantified (pattern exp(x)) on the symbolic pass; ground instances for the applications of the goal, and
+    for all applications on the concrete (quantifier-free) pass."""
+    E = UF["exp"]
+    apps = _apps_of(formulas if exact else goal, E)
+    ax = [a > 0 for a in apps[:400]]
+    if not exact:
+        x = z3.Real("ex")
+        ax.append(z3.ForAll([x], E(x) > 0, patterns=[E(x)]))
+    return ax
+
+
 def norm2_axioms(formulas=(), exact=False, goal=()):
     """Axioms of the Euclidean norm of a 2-vector (uninterpreted, A1): non-negative,
     zero iff the vector is zero (quantified, create no new terms); evenness
@@ -1275,6 +1305,20 @@ def scatter(src, dim, idx, val, mode="set", inplace=False):
         ctx.wf(f"scatter-rank src={src.rank} idx={idx.rank}", False)
     K = idx.shape[d]
     single = (isinstance(K, int) and K == 1) or _expanded_along(idx, d)
+    if (not single and mode == "set" and idx.prov and idx.prov[0] == "sortidx" and idx.prov[1]["dim"] == d
+            and all(ctx.same(a, b) for a, b in zip(idx.shape, src.shape)) and (not T(val) or all(ctx.same(a, b) for a, b in zip(val.shape, src.shape)))):
+        # scattering along the permutation returned by torch.sort: every position j is written exactly once, by the source
+        # element at the inverse permutation Q(j) (assumed sort contract: the indices are a bijection with inverse Q)
+        Qf = idx.prov[1]["Q"]
+        if T(val):
+            vs_ = val.snap()
+            newf = lambda J: cast(vs_(tuple(J[:d]) + (Qf(*[zint(x) for x in J]),) + tuple(J[d + 1:])), src.dtype)
+        else:
+            newf = lambda J: cast(val, src.dtype)
+        if inplace:
+            src.write(lambda J, old: newf(J))
+            return src
+        return mk(src.shape, src.dtype, newf, grad=grad_of(src, val))
     if not single and mode == "set" and not isinstance(K, int):
         raise Unsupported("scatter with symbolic index count along dim")
     if not single and mode == "add" and not isinstance(K, int):
